@@ -239,7 +239,9 @@ struct Slot {
     sid: u32,
     send: Option<h2::SendStream<Bytes>>,
     resp_fut: Option<h2::client::ResponseFuture>,
+    pushed_fut: Option<h2::client::PushedResponseFuture>,
     pushes: Option<h2::client::PushPromises>,
+    pushes_taken: bool,
     body: Option<h2::RecvStream>,
     fc: Option<h2::FlowControl>,
     responder: Option<h2::server::SendResponse<Bytes>>,
@@ -947,24 +949,63 @@ impl ConnH {
                     None => "nohandle".into(),
                 }
             }
+            ("cn_takepushes", [k]) => {
+                let s = self.slot(k)?;
+                match s.resp_fut.as_mut() {
+                    // (`push_promises()` panics when it is called a second time: documented, not done)
+                    Some(rf) if !s.pushes_taken => {
+                        s.pushes = Some(rf.push_promises());
+                        s.pushes_taken = true;
+                        "ok".into()
+                    }
+                    _ => "nohandle".into(),
+                }
+            }
+            ("cn_pollpushed", [k]) => {
+                let w = self.waker(&format!("q{}", k));
+                let mut cx = Context::from_waker(&w);
+                let n = self.slots.len();
+                let s = self.slot(k)?;
+                match s.pushes.as_mut() {
+                    Some(pp) => match pp.poll_push_promise(&mut cx) {
+                        Poll::Pending => "pending".into(),
+                        Poll::Ready(None) => "none".into(),
+                        Poll::Ready(Some(Err(e))) => format!("err:{}", perr(&e)),
+                        Poll::Ready(Some(Ok(p))) => {
+                            let (req, fut) = p.into_parts();
+                            let sid = fut.stream_id().as_u32();
+                            let (parts, _) = req.into_parts();
+                            let hd = render_req(&parts);
+                            self.slots.push(Slot { sid, pushed_fut: Some(fut), ..Default::default() });
+                            format!("ok:{}:{}:{}", n, sid, hd)
+                        }
+                    },
+                    None => "nohandle".into(),
+                }
+            }
             ("cn_resp", [k]) => {
                 let w = self.waker(&format!("p{}", k));
                 let mut cx = Context::from_waker(&w);
                 let s = self.slot(k)?;
-                match s.resp_fut.as_mut() {
-                    Some(rf) => match Pin::new(rf).poll(&mut cx) {
-                        Poll::Pending => "pending".into(),
-                        Poll::Ready(Ok(resp)) => {
-                            let (parts, body) = resp.into_parts();
-                            s.body = Some(body);
-                            s.resp_fut = None;
-                            format!("ok:{}:{}", parts.status.as_u16(), render_hdrs(&parts.headers))
-                        }
-                        Poll::Ready(Err(e)) => {
-                            s.resp_fut = None;
-                            format!("err:{}", perr(&e))
-                        }
-                    },
+                let polled = match (s.resp_fut.as_mut(), s.pushed_fut.as_mut()) {
+                    (Some(rf), _) => Some(Pin::new(rf).poll(&mut cx)),
+                    (None, Some(pf)) => Some(Pin::new(pf).poll(&mut cx)),
+                    (None, None) => None,
+                };
+                match polled {
+                    Some(Poll::Pending) => "pending".into(),
+                    Some(Poll::Ready(Ok(resp))) => {
+                        let (parts, body) = resp.into_parts();
+                        s.body = Some(body);
+                        s.resp_fut = None;
+                        s.pushed_fut = None;
+                        format!("ok:{}:{}", parts.status.as_u16(), render_hdrs(&parts.headers))
+                    }
+                    Some(Poll::Ready(Err(e))) => {
+                        s.resp_fut = None;
+                        s.pushed_fut = None;
+                        format!("err:{}", perr(&e))
+                    }
                     None => "nohandle".into(),
                 }
             }
@@ -1058,7 +1099,10 @@ impl ConnH {
                 let s = self.slot(k)?;
                 match *which {
                     "send" => s.send = None,
-                    "resp" => s.resp_fut = None,
+                    "resp" => {
+                        s.resp_fut = None;
+                        s.pushed_fut = None;
+                    }
                     "body" => s.body = None,
                     "fc" => s.fc = None,
                     "responder" => s.responder = None,
@@ -1066,6 +1110,7 @@ impl ConnH {
                     _ => {
                         s.send = None;
                         s.resp_fut = None;
+                        s.pushed_fut = None;
                         s.body = None;
                         s.fc = None;
                         s.responder = None;
